@@ -84,7 +84,9 @@ func relOf(c *Case, kind, rel string) *Case {
 func init() {
 	// C04: annotation shapes x substitutions
 	gens["C04"] = func(r *RNG, id string) *Case {
-		return genVarCase(r, id, varOpts{fmtWeights: [2]int{1, 2}, withIns: r.Chance(1, 3), gffShapes: true, allowPhase: true, maxGenes: 6})
+		c := genVarCase(r, id, varOpts{fmtWeights: [2]int{1, 2}, withIns: r.Chance(1, 3), gffShapes: true, allowPhase: true, maxGenes: 6})
+		c.Set("focus", "nucaa") // C04 speaks about nuc: and aa: records; ins:/del: belong to C05
+		return c
 	}
 	execs["C04"] = execVar
 	// C05: gap layouts, and the column-invariance relation on the real code
@@ -93,6 +95,7 @@ func init() {
 		if c.Get("refmode") != "ann" && r.Chance(1, 2) {
 			return relOf(c, "regap", "eq")
 		}
+		c.Set("focus", "indel") // C05 speaks about ins: and del: records
 		return c
 	}
 	execs["C05"] = func(r *RNG, c *Case) { execs[c.Prop](r, c) }
